@@ -37,6 +37,7 @@ def REQUIRED(tier):
 
 
 def run(rec, cfg):
+    rec.accept = {"value"}
     MR.CHECKS.update({"value"})
     MR.attach_apply()
     rng = cfg.rng("c01")
